@@ -65,6 +65,9 @@ func genC15(t *rapid.T) interface{} {
 		sc.Cfg.PtyCols = rapid.IntRange(60, 100).Draw(t, "ptycols")
 		sc.SizeErrAt = k
 	}
+	if rapid.IntRange(0, 2).Draw(t, "slowdebug") == 0 {
+		sc.Cfg.DebugSlowUs = rapid.IntRange(200, 3000).Draw(t, "slowdebugus")
+	}
 	// slow decorators and directed holds widen the window between "some bars
 	// have sent their width" and "the error is seen"
 	if rapid.Bool().Draw(t, "slow") {
@@ -142,6 +145,13 @@ func runC15(ci interface{}) Result {
 		return r
 	}
 	debug := tr.Debug
+	if tr.DebugAtWait != tr.Debug {
+		r.Err, r.Kind = fmt.Errorf("when Wait returned the debug output held %q, later %q: the error was reported after Wait had returned", tr.DebugAtWait, tr.Debug), "report-after-wait"
+		return r
+	}
+	if sc.Cfg.DebugSlowUs > 0 && fired {
+		r.Classes = append(r.Classes, "slow-debug-output")
+	}
 	if !fired {
 		if strings.TrimSpace(debug) != "" {
 			r.Err, r.Kind = fmt.Errorf("no fault fired but the debug output holds %q", debug), "debug"
